@@ -2,6 +2,7 @@ package props
 
 import (
 	"fmt"
+	"reflect"
 	"strconv"
 	"strings"
 
@@ -123,14 +124,15 @@ func oracleC01(ctx *harness.Ctx, cs *harness.Case) (ds []harness.Discrepancy) {
 		if kind == "" {
 			continue
 		}
-		// root cause "an identifier spelled like a pseudo keyword loses its back quotes": peel it off by
-		// renaming such identifiers in the tree; if the failure changes or disappears it was (one of) the cause(s)
-		if renamePseudoIdents(root) > 0 {
-			k2, d2 := roundTrip(se, ex, root)
-			if k2 != kind {
-				add("C01 identifier-spelled-like-pseudo-keyword-loses-quotes", fmt.Sprintf("%s: %s", astx.TypeName(root), detail))
-				kind, detail = k2, d2
+		// root cause "an identifier spelled like a pseudo keyword loses its back quotes": peel it off. All such identifiers are
+		// renamed; if that changes (or removes) the failure, the ones that matter are found by restoring them one at a time and
+		// reported as NAME@role (role: expr / type / Owner.Field), so the same defect in a new syntactic role is a new signature.
+		// The analysis continues on the renamed tree.
+		if culprits, k2, d2, involved := pseudoCulprits(root, func() (string, string) { return roundTrip(se, ex, root) }, kind); involved {
+			for _, c := range culprits {
+				add("C01 pseudo-keyword-identifier-loses-quotes "+c, fmt.Sprintf("%s: %s", astx.TypeName(root), detail))
 			}
+			kind, detail = k2, d2
 			if kind == "" {
 				continue
 			}
@@ -153,6 +155,17 @@ func oracleC01(ctx *harness.Ctx, cs *harness.Case) (ds []harness.Discrepancy) {
 			k2, d2 := roundTrip(ne, nx, n)
 			if k2 == "" {
 				continue
+			}
+			// the sub-node's own failure may again be the pseudo-keyword cause
+			if culprits, k3, d3, involved := pseudoCulprits(n, func() (string, string) { return roundTrip(ne, nx, n) }, k2); involved {
+				for _, c := range culprits {
+					add("C01 pseudo-keyword-identifier-loses-quotes "+c, fmt.Sprintf("%s at %s: %s", astx.TypeName(n), nodes[i].Path, d2))
+				}
+				blamed = true
+				if k3 == "" {
+					continue
+				}
+				k2, d2 = k3, d3
 			}
 			add(fmt.Sprintf("C01 %s", k2), fmt.Sprintf("%s at %s: %s", astx.TypeName(n), nodes[i].Path, d2))
 			blamed = true
@@ -177,6 +190,97 @@ SKIP RESTART COUNTER START BIT_REVERSED_POSITIVE EXECUTE FUNCTION NODE TABLES ED
 	}
 	return m
 }()
+
+var exprIface = reflect.TypeOf((*ast.Expr)(nil)).Elem()
+
+// identRole names the syntactic role of an identifier: "expr" when it stands (alone or as the head of a path) where an
+// expression is expected, "type" inside a named type, otherwise the owning struct field.
+func identRole(a astx.At, byNode map[ast.Node]astx.At) string {
+	cur := a
+	for hop := 0; hop < 3; hop++ {
+		field := lastStep(cur.Path)
+		name := field
+		if k := strings.IndexByte(name, '['); k >= 0 {
+			name = name[:k]
+		}
+		if cur.Parent == nil {
+			return "expr" // the identifier is itself the (sub-)tree under analysis: an expression
+		}
+		switch p := cur.Parent.(type) {
+		case *ast.NamedType:
+			return "type"
+		case *ast.Path:
+			if !strings.HasSuffix(field, "[0]") {
+				return "path-tail"
+			}
+			cur = byNode[p]
+			continue
+		}
+		pt := reflect.TypeOf(cur.Parent).Elem()
+		if f, ok := pt.FieldByName(name); ok {
+			ft := f.Type
+			if ft.Kind() == reflect.Slice {
+				ft = ft.Elem()
+			}
+			if ft == exprIface {
+				return "expr"
+			}
+			if ft.Kind() == reflect.Interface {
+				return "expr:" + ft.Name()
+			}
+		}
+		return astx.TypeName(cur.Parent) + "." + name
+	}
+	return "?"
+}
+
+// pseudoCulprits renames every pseudo-keyword-spelled identifier of the tree. involved reports whether that changes the outcome
+// of the round trip (k2, d2 is the new outcome; the tree stays renamed). The culprits are the identifiers whose original
+// spelling alone brings a failure back, as NAME@role.
+func pseudoCulprits(root ast.Node, trip func() (string, string), kind string) (culprits []string, k2, d2 string, involved bool) {
+	all := astx.All(root)
+	byNode := map[ast.Node]astx.At{}
+	var ids []astx.At
+	for _, a := range all {
+		byNode[a.Node] = a
+		if id, ok := a.Node.(*ast.Ident); ok && pseudoKeywordSet[strings.ToUpper(id.Name)] {
+			ids = append(ids, a)
+		}
+	}
+	if len(ids) == 0 {
+		return nil, kind, "", false
+	}
+	orig := make([]string, len(ids))
+	for i, a := range ids {
+		id := a.Node.(*ast.Ident)
+		orig[i] = id.Name
+		id.Name = "q_" + id.Name
+	}
+	k2, d2 = trip()
+	if k2 == kind {
+		for i, a := range ids {
+			a.Node.(*ast.Ident).Name = orig[i]
+		}
+		return nil, kind, "", false
+	}
+	seen := map[string]bool{}
+	for i, a := range ids {
+		id := a.Node.(*ast.Ident)
+		id.Name = orig[i]
+		if k, _ := trip(); k != k2 {
+			key := strings.ToUpper(orig[i]) + "@" + identRole(a, byNode)
+			if !seen[key] {
+				seen[key] = true
+				culprits = append(culprits, key)
+			}
+		}
+		id.Name = "q_" + orig[i]
+	}
+	if len(culprits) == 0 {
+		culprits = []string{"(combination)"}
+	}
+	return culprits, k2, d2, true
+}
 
 // renamePseudoIdents renames (in place) every identifier spelled like a pseudo keyword; it returns how many.
 func renamePseudoIdents(root ast.Node) int {
@@ -243,6 +347,20 @@ func runC01(ctx *harness.Ctx) {
 		es := entriesForKind(c.S.Kind)
 		e := es[rapid.IntRange(0, len(es)-1).Draw(t, "entry")]
 		c01One(ctx, t, "generated-relaxed", e, c.Text)
+	})
+	ctx.Rapid("quoted-pseudo-keyword", ctx.Pick(4000, 60000), func(t *rapid.T) {
+		c, ok := drawGenQuotedPKW(t, "", rapid.SampledFrom([]int{1, 2, 2}).Draw(t, "depth"))
+		if !ok {
+			return
+		}
+		es := entriesForKind(c.S.Kind)
+		c01One(ctx, t, "quoted-pseudo-keyword", es[rapid.IntRange(0, len(es)-1).Draw(t, "entry")], c.Text)
+	})
+	ctx.Rapid("generated-long", ctx.Pick(400, 8000), func(t *rapid.T) {
+		c := drawGenLong(t, "", 2)
+		es := entriesForKind(c.S.Kind)
+		e := es[rapid.IntRange(0, len(es)-1).Draw(t, "entry")]
+		c01One(ctx, t, "generated-long", e, c.Text)
 	})
 	ctx.Rapid("generated-list", ctx.Pick(1500, 30000), func(t *rapid.T) {
 		kind := rapid.SampledFrom([]string{"query", "ddl", "dml"}).Draw(t, "kind")
@@ -506,7 +624,12 @@ func oracleC02(ctx *harness.Ctx, cs *harness.Case) (ds []harness.Discrepancy) {
 func runC02(ctx *harness.Ctx) {
 	useAvoid(ctx)
 	ctx.Rapid("generated", ctx.Pick(15000, 300000), func(t *rapid.T) {
-		c := drawGen(t, "", drawDepth(t))
+		var c GenCase
+		if rapid.IntRange(0, 29).Draw(t, "long") == 0 {
+			c = drawGenLong(t, "", 2)
+		} else {
+			c = drawGen(t, "", drawDepth(t))
+		}
 		tagHistogram(ctx, c.S.Tags)
 		e := specificEntry(c.S.Kind)
 		cs := &harness.Case{Leg: "generated", Entry: e.Name, Input: c.Text, Aux: map[string]string{"c": encodeLex(c.S.C), "kind": c.S.Kind}}
